@@ -40,6 +40,15 @@ WITNESS = {
     "F45": ("S1", ["new,7,-,saa:c,-", "new,11,-,sbb:tb,42", "ins_sibling,11,7", "validate,7"], None),
     # lyd_move_nodes: the first source node is not system-ordered, a later one is and has a leader in the destination
     "F144": ("S3", ["new,1,-,scc:tl,30", "new,2,-,scc:c,-", "ins_sibling,1,2", "new,3,-,scc:c,-", "new,4,-,scc:tl,35", "ins_sibling,4,3", "ins_sibling,3,1"], None),
+    # bulk move, source list with a sorting tree, destination instance without one and followed by a leaf: the leaf is put into the tree
+    "F164": ("S2", ["new,1,-,szz:c,-", "new,2,1,szz:sl,61", "new,3,1,szz:sl,62", "new,4,1,szz:a,61", "unlinksibs,2", "unlink,3",
+                    "ins_child,3,1", "new,5,1,szz:b,78", "ins_child,2,1"], None),
+    # the same move onto a duplicated leaf-list (leader with empty lyds metadata): the empty metadata stays behind
+    "F165": ("S2", ["new,1,-,szz:c,-", "new,2,1,szz:sll,61", "new,3,1,szz:sll,62", "new,4,-,szz:c,-", "dupsib,2,4,0", "unlinksibs,2",
+                    "ins_child,2,4"], 64),
+    # lyd_dup_siblings into a parent that holds an instance: the later duplicates are missing from the sorting tree
+    "F166": ("S1", ["new,1,-,saa:c,-", "new,2,1,saa:sll,35", "new,3,-,saa:c,-", "new,4,3,saa:sll,36", "new,5,3,saa:sll,38", "dupsib,4,1,0",
+                    "new,20,1,saa:sll,37", "new,21,1,saa:sll,39"], 68),
     # lyd_merge_tree with two opaque nodes in the source: NULL dereference in lyht_dup_inst_ht_equal_cb
     "F145": ("S3", ["new,8,-,scc:c,-", "new,4,-,scc:c,-", "newopaq,1,8,zz,-", "new,6,4,scc:dv,3130", "newopaq,11,8,a,76", "merge_opaq,8,4,4"], None),
 }
@@ -52,7 +61,7 @@ def classify(component, what, case):
     if component != "sib":
         return None
     a = case.get("attrib")
-    return a if a in ("F19", "F112", "F141", "F142", "F45", "F144", "F145") else None
+    return a if a in ("F19", "F112", "F141", "F142", "F45", "F144", "F145", "F164", "F165", "F166") else None
 
 
 # ------------------------------------------------------------------------------------------------ helpers
@@ -394,6 +403,11 @@ def run(cx):
     for sn in ("S1", "S2", "S3"):
         ep += [(sn, ops) for ops in emptied_parent_scripts(rng, schs[sn], cx.n(120, 1500))]
     law_scripts(cx, schs, ep, kind="law-emptied-parent", present=present)
+    rng = cx.sub_rng("dupmove")
+    dm = []
+    for sn in ("S1", "S2", "S3"):
+        dm += [(sn, ops) for ops in dup_move_scripts(rng, schs[sn], cx.n(100, 1200))]
+    law_scripts(cx, schs, dm, kind="law-dup-move", present=present)
 
 
 def emptied_parent_scripts(rng, sch, n):
@@ -445,6 +459,73 @@ def emptied_parent_scripts(rng, sch, n):
         for _ in range(3):
             x = rng.choice(ch)
             ops.append("find,20,%s,%s" % (sch.qname(x), hexs(sibcomp.gen_value(rng, x["kt"], bad=0))))
+        out.append(ops)
+    return out
+
+
+def dup_move_scripts(rng, sch, n):
+    """Directed family (law mode): duplicates and bulk moves meet.  Two containers get children (mostly instances of the
+    system-ordered lists / leaf-lists); sibling lists are duplicated with lyd_dup_siblings() into a parent that already
+    holds instances, into an empty parent or without a parent — the copies are (leaf-)lists WITHOUT a sorting tree whose
+    leader carries empty lyds metadata; whole parent-less sibling lists (with and without trees: unlink-siblings from the
+    first / from a later instance) are then moved onto the copies and the copies onto them (lyds_merge, all four
+    tree / no-tree combinations); sorted inserts, unlinks and frees use the trees afterwards."""
+    out = []
+    conts = [e for e in sch.ents if e["parent"] is None and e["kind"] == "c"
+             and any(x["kind"] in ("ls", "lls") for x in sch.children(e["sid"]))]
+    for _ in range(n):
+        e = rng.choice(conts)
+        ch = [x for x in sch.children(e["sid"]) if x["kind"] != "key"]
+        so = [x for x in ch if x["kind"] in ("ls", "lls")]
+        ops = [sibcomp.op_new(1, None, sch.qname(e), b""), sibcomp.op_new(50, None, sch.qname(e), b"")]
+        ids = []
+        for par, lo, cnt in ((1, 2, rng.randint(3, 8)), (50, 51, rng.randint(0, 5))):
+            single = set()
+            for i in range(lo, lo + cnt):
+                x = rng.choice(so) if rng.random() < 0.7 else rng.choice(ch)
+                if x["kind"] in ("lf", "c", "pc"):
+                    if x["sid"] in single:
+                        continue
+                    single.add(x["sid"])
+                ops.append(sibcomp.op_new(i, par, sch.qname(x), sibcomp.gen_value(rng, x["kt"], bad=0)))
+                ids.append(i)
+        pool = ids[:]
+        if rng.random() < 0.4:
+            # directed: the children of container 1 (from some child on) are copied into container 50, then the originals
+            # - a parent-less sibling list with their sorting trees - are moved onto the copies (or the copies onto them)
+            a = rng.choice(ids[:3])
+            ops.append("dupsib,%d,%s,%d" % (a, rng.choice(["50", "50", "-"]), rng.choice([0, 1])))
+            pool += [2000, 2001, 2002, 2003]
+            ops.append("unlinksibs,%d" % a)
+            if rng.random() < 0.3:
+                ops.append("unlink,%d" % rng.choice(ids))
+            ops.append(rng.choice(["ins_child,%d,50" % a, "ins_child,%d,50" % a, "ins_sibling,%d,2000" % a, "ins_sibling,2000,%d" % a]))
+        for _ in range(rng.randint(4, 10)):
+            a, r = rng.choice(pool), rng.random()
+            if r < 0.25:
+                # only original nodes are copied (a copied key leaf without its list is another story: F142)
+                ops.append("dupsib,%d,%s,%d" % (rng.choice(ids), rng.choice(["-", "1", "50"]), rng.choice([0, 1])))
+                if 2000 not in pool:
+                    pool += [2000, 2001, 2002, 2003]
+            elif r < 0.45:
+                ops.append("unlinksibs,%d" % a)
+            elif r < 0.55:
+                ops.append("unlink,%d" % a)
+            elif r < 0.85:
+                ops.append("ins_child,%d,%d" % (a, rng.choice([1, 50])))
+            else:
+                b = rng.choice(pool)
+                if a != b:
+                    ops.append("ins_sibling,%d,%d" % (a, b))
+        # use the trees
+        for i in range(20, 20 + rng.randint(2, 4)):
+            x = rng.choice(so)
+            ops.append(sibcomp.op_new(i, rng.choice([1, 50]), sch.qname(x), sibcomp.gen_value(rng, x["kt"], bad=0)))
+        for a in rng.sample(pool, min(len(pool), 3)):
+            ops.append(("free,%d" if rng.random() < 0.5 else "unlink,%d") % a)
+        for i in range(30, 30 + rng.randint(1, 3)):
+            x = rng.choice(so)
+            ops.append(sibcomp.op_new(i, rng.choice([1, 50]), sch.qname(x), sibcomp.gen_value(rng, x["kt"], bad=0)))
         out.append(ops)
     return out
 
